@@ -34,6 +34,15 @@ def str_lits(body):
                     out.setdefault(last, set()).add(t[1])
                 if isinstance(t, tuple) and t[0] == "k" and isinstance(t[1], int) and t[2] == "char":
                     out.setdefault(last, set()).add(chr(t[1]))
+                if isinstance(t, tuple) and t[0] == "agg" and t[1] == "array":
+                    for el in t[3]:
+                        if isinstance(el, tuple) and el[0] == "k" and isinstance(el[1], int) and el[2] == "char":
+                            out.setdefault(last, set()).add(chr(el[1]))
+                if isinstance(t, tuple) and t[0] == "kb" and "[char;" in t[2]:
+                    # a constant array of chars used as a pattern: contains(['<', '>'])
+                    raw = bytes.fromhex(t[1])
+                    for i in range(0, len(raw) - 3, 4):
+                        out.setdefault(last, set()).add(chr(int.from_bytes(raw[i : i + 4], "little")))
     return out
 
 
@@ -206,6 +215,17 @@ def run(ctx):
                 if (2 in d0.params) != (2 in d1.params):
                     other = d1 if 2 in d0.params else d0
                     cmp_ = "#0" in other.names and "#1" not in other.names
+        # the same scan spelled with iterator adaptors: the comparison sits in a (nested) closure, one side is the key
+        # half of the element the closure receives, the other the captured requested key
+        for cb_ in prog.closures_of(hk.name):
+            cix_ = index_of(cb_)
+            for _bi, t in cb_.calls():
+                c = t.get("res") or ""
+                if "PartialEq" in c and len(t["args"]) == 2:
+                    d0, d1 = derive(cix_, t["args"][0]), derive(cix_, t["args"][1])
+                    for elem, cap in ((d0, d1), (d1, d0)):
+                        if 2 in elem.params and 1 not in elem.params and cap.params == {1} and any(pth and pth[-1] == "#0" for pth in elem.paths) and not any(pth and pth[-1] == "#1" for pth in elem.paths):
+                            cmp_ = True
         ctx.ob("QUERIES", "has_key", ok and cmp_, "has_key scans every category's keys and compares with the requested key", hk.file, hk.line)
     else:
         ctx.fail_closed("QUERIES", "cfg::ConfigFile::has_key not found")
